@@ -21,7 +21,7 @@ PROP = dict(
     level_note=("partial: real-cipher strength is an assumption (ideal AEAD: a ciphertext opens only under its own key and associated data); the marker scan and the tamper runs are "
                 "tests of the real bytes. Wholesale replacement of the file by another complete valid database/snapshot under the same key is undetectable by design and not claimed. "
                 "Trusted: Coq kernel+VM, tink/encoding/json as used by the harness to probe files, strace for the creation mode."),
-    rule=("60 (thorough 3000) histories of 4-17 calls with 4 marker names and 8 marker values (binary, printable, JSON-escaped) probed after every call; for the first 6 (40) "
+    rule=("150 (thorough 3000) histories of 4-17 calls with 4 marker names and 8 marker values (binary, printable, JSON-escaped) probed after every call; for the first 10 (40) "
           "histories db.Open on altered copies of the final file: every bit of the JSON skeleton + 512 sampled payload bits (thorough: every bit), every truncation point, 3+ foreign "
           "keys, DEK/DB fields of 3 fresh and 2 golden databases incl. duplicate members, 17 version edits - batched per class, any opening to different contents reported on its own; "
           "KEK uses at creation/opening; creation modes. A history is non-trivial with >= 3 successful saves; distinct by marker seed + operations"),
